@@ -333,6 +333,9 @@ func (s Store) Lookup(ctx context.Context, runID string) (*workflow.Record, erro
 				stale = "~stale"
 				w.Mon.staleReads++
 				w.staleInOp = true
+				if w.Mon.after == "" {
+					w.Mon.after = "stale-read"
+				}
 			}
 		}
 		c := cloneRec(&rr.versions[i])
